@@ -24,6 +24,12 @@ PROP = {
     ],
 }
 
+PROP["jobs"].append({"harness": "h_stream", "comp": "pipe", "n_quick": 400, "n_thorough": 6000, "timeout": 3000,
+                     "why": "data-path clauses of C12 on the v1 engine: a forced stop at a random instant (incl. during node start-up, with blocked "
+                            "destination / DLQ fakes) makes the real node graph hang or panic, or produces a trace that is not a behaviour of the v1 "
+                            "pipeline model (a record acknowledged to the source without destination / DLQ confirmation)"})
+PROP["lean_modules"] += ["ConduitModel.Props.C01Stream", "ConduitModel.Facts.Stream"]
+
 META = {
     "text": "Lean 4 theorems: the forceStopper latch cancels the node's connector context for every placement of any number of ForceStop "
             "calls around the single start() (C12_force_stop_latch); over M5 for both engines, a force stop reaching a run with a live tomb "
